@@ -38,6 +38,8 @@ SRC = os.path.join(translate.REPO, "metomi", "isodatetime")
 CLS = "TimeRecurrence"
 
 Z, Q, B, S, P, D, PK, DK, REC, NONE = "Z", "Q", "B", "S", "P", "D", "PK", "DK", "REC", "NONE"
+EXN = "EXN"      # an exception instance (only its class is modelled)
+OPAQUE = ("OPAQUE",)   # a parameter whose value is only used in untranslated exception arguments
 
 
 def OPT(t):
@@ -111,7 +113,7 @@ def is_tuple(t):
 
 
 def is_static(t):
-    return isinstance(t, tuple) and t[0] in ("SSTR", "SLIST", "DICT", "TYSPEC", "TRACE")
+    return isinstance(t, tuple) and t[0] in ("SSTR", "SLIST", "DICT", "TYSPEC", "TRACE", "OPAQUE")
 
 
 def base(t):
@@ -120,7 +122,7 @@ def base(t):
 
 def coq_type(t):
     simple = {Z: "Z", Q: "Q", B: "bool", S: "string", P: "P", D: "D", PK: "PK", DK: "DK",
-              REC: "(pyRec P D)", NONE: "unit"}
+              REC: "(pyRec P D)", NONE: "unit", EXN: "pyexn"}
     if isinstance(t, str) and t in simple:
         return simple[t]
     if is_opt(t):
@@ -361,18 +363,20 @@ class ClassUnit:
                     defs.setdefault(a.asname or a.name, []).append("from %s import %s" % (node.module, a.name))
             elif isinstance(node, ast.Import):
                 for a in node.names:
-                    defs.setdefault(a.asname or a.name, []).append("import")
+                    defs.setdefault(a.asname or a.name, []).append("import " + a.name)
             elif isinstance(node, (ast.Assign, ast.AugAssign, ast.AnnAssign)):
                 for n in ast.walk(node):
                     if isinstance(n, ast.Name) and isinstance(n.ctx, ast.Store):
                         defs.setdefault(n.id, []).append("assign")
         want = {"Duration": ["def"], "TimePoint": ["def"], CLS: ["def"], "_type_checker": ["def"],
-                "floor": ["from math import floor"], "BadInputError": ["from exceptions import BadInputError"]}
+                "BadInputError": ["from exceptions import BadInputError"]}
+        self.defs = defs     # `floor` / `math.floor` are resolved where they are called
         for nm, w in want.items():
             if defs.get(nm) != w:
                 raise Reject("module-level name %s is bound by %r, expected %r" % (nm, defs.get(nm), w))
         for nm in ("str", "isinstance", "getattr", "hash", "divmod", "enumerate", "any", "all",
-                   "TypeError", "IndexError", "ValueError"):
+                   "TypeError", "IndexError", "ValueError", "AttributeError", "ZeroDivisionError",
+                   "UnboundLocalError", "staticmethod", "property"):
             if nm in defs:
                 raise Reject("builtin %s is rebound at module level" % nm)
 
@@ -782,7 +786,12 @@ class ClassUnit:
             if f.id == "str" and len(n.args) == 1 and not n.keywords:
                 binds, v = self.expr(n.args[0], env, fx)
                 return binds, self.str_of(v, fx, binds)
+            if f.id in EXNS:
+                # an exception instance: its class only (the arguments - message construction - are not translated)
+                return [], Val(f.id, EXN)
             if f.id == "floor" and len(n.args) == 1 and not n.keywords:
+                if self.defs.get("floor") != ["from math import floor"]:
+                    raise Reject("floor is bound by %r, not by `from math import floor`" % self.defs.get("floor"))
                 binds, v = self.expr(n.args[0], env, fx)
                 v = self.num(v, fx, binds, "floor()")
                 return binds, (v if v.ty == Z else Val("(Qfloor %s)" % v.text, Z))
@@ -837,6 +846,12 @@ class ClassUnit:
         if isinstance(f, ast.Attribute):
             if ast.unparse(f) == "self.__class__":
                 return self.construct(n, env, fx)
+            if ast.unparse(f) == "math.floor" and len(n.args) == 1 and not n.keywords:
+                if self.defs.get("math") != ["import math"] or "math" in fx.locals or "math" in env.ty:
+                    raise Reject("math is bound by %r, not by `import math`" % self.defs.get("math"))
+                binds, v = self.expr(n.args[0], env, fx)
+                v = self.num(v, fx, binds, "floor()")
+                return binds, (v if v.ty == Z else Val("(Qfloor %s)" % v.text, Z))
             rb, recv = self.expr(f.value, env, fx)
             if n.keywords or any(isinstance(a, ast.Starred) for a in n.args):
                 raise Reject("keyword/starred arguments in a method call")
@@ -857,16 +872,22 @@ class ClassUnit:
 
     def method_call(self, name, recv, args, fx, binds):
         try:
-            callee = self.method(name, [a.ty for a in args])
+            callee = self.method(name, [OPAQUE if is_static(a.ty) and a.sstr is None else a.ty for a in args])
         except Reject as exc:
             raise Reject("call of %s.%s, which is outside the subset: %s" % (CLS, name, exc))
         if len(args) != len(callee["params"]):
             raise Reject("%s called with %d arguments" % (name, len(args)))
-        texts = [coerce(a, t).text for a, t in zip(args, callee["params"])]
+        texts = []
+        for a, t in zip(args, callee["params"]):
+            if t == OPAQUE:       # evaluated (it is a pure static value), not passed
+                if not (is_static(a.ty) and a.sstr is None):
+                    raise Reject("%s: argument of type %r for an opaque parameter" % (name, a.ty))
+                continue
+            texts.append(coerce(a, t).text)
         if fx.ctor and (fx.cur_assigned is None or any(
                 sl not in fx.cur_assigned for sl, _, kind in SLOTS if kind == "opt")):
             raise Reject("method %s called inside __init__ before every slot is assigned" % name)
-        head = " ".join([callee["coq"], "ops", recv.text] + texts)
+        head = " ".join([callee["coq"], "ops"] + ([] if callee["static"] else [recv.text]) + texts)
         if callee["fuel"]:
             fx.fuel = True
             head += " fuel"
@@ -936,7 +957,7 @@ class ClassUnit:
         return ends
 
     def storable(self, name, env, fx):
-        if name in ("self", "ops", "fuel", "CALENDAR", CLS, "Duration", "TimePoint", "floor", "str", "hash",
+        if name in EXNS or name in ("self", "ops", "fuel", "CALENDAR", CLS, "Duration", "TimePoint", "floor", "math", "str", "hash",
                     "isinstance", "getattr", "divmod", "enumerate", "any", "all", "_type_checker",
                     "BadInputError"):
             raise Reject("local %s shadows a global / self" % name)
@@ -1015,9 +1036,14 @@ class ClassUnit:
             e = s.exc
             nm = e.func.id if isinstance(e, ast.Call) and isinstance(e.func, ast.Name) else (
                 e.id if isinstance(e, ast.Name) else None)
-            if nm not in EXNS or s.cause is not None:
-                raise Reject("raise of something other than a known exception class")
-            return pad + cx.raise_(nm)
+            if s.cause is not None or e is None:
+                raise Reject("raise ... from / bare raise")
+            if nm in EXNS and nm not in fx.locals:
+                return pad + cx.raise_(nm)
+            binds, v = self.expr(e, env, fx)      # e.g. a helper method of the class that builds the exception
+            if v.ty != EXN:
+                raise Reject("raise of something other than a known exception class / instance")
+            return self.lines(ind, binds, pad + cx.raise_(v.text), cx)
         if isinstance(s, ast.Break):
             if cx.brk is None:
                 raise Reject("break outside a translated while loop")
@@ -1401,8 +1427,8 @@ class ClassUnit:
     def two_pass(self, fx, node, env, cx, off_end):
         skip = set()     # the arguments of raised exceptions are not translated
         for st in ast.walk(node):
-            if isinstance(st, ast.Raise) and isinstance(st.exc, ast.Call):
-                for a in list(st.exc.args) + [kw.value for kw in st.exc.keywords]:
+            if isinstance(st, ast.Call) and isinstance(st.func, ast.Name) and st.func.id in EXNS:
+                for a in list(st.args) + [kw.value for kw in st.keywords]:
                     skip |= {id(x) for x in ast.walk(a)}
         for st in ast.walk(node):
             if id(st) in skip:
@@ -1426,10 +1452,15 @@ class ClassUnit:
         a = node.args
         if a.posonlyargs or a.vararg or a.kwonlyargs or a.kwarg or a.defaults or a.kw_defaults:
             raise Reject("%s: parameters other than plain positional ones" % node.name)
+        static = False
         for d in node.decorator_list:
-            if not (isinstance(d, ast.Name) and d.id == "property"):
+            if isinstance(d, ast.Name) and d.id == "staticmethod" and len(node.decorator_list) == 1:
+                static = True
+            elif not (isinstance(d, ast.Name) and d.id == "property"):
                 raise Reject("%s: decorator %s" % (node.name, ast.unparse(d)))
         names = [p.arg for p in a.args]
+        if static:
+            names = ["self"] + names       # no receiver: `self` is simply not bound below
         if not names or names[0] != "self" or len(set(names)) != len(names):
             raise Reject("%s: parameter list" % node.name)
         sig = SIGS.get(node.name)
@@ -1438,7 +1469,7 @@ class ClassUnit:
         if len(names) - 1 != len(sig):
             raise Reject("%s takes %d arguments, %d given" % (node.name, len(names) - 1, len(sig)))
         for ty in sig:
-            if is_static(ty) or ty == NONE:
+            if (is_static(ty) and ty != OPAQUE) or ty == NONE:
                 raise Reject("%s: argument of type %r" % (node.name, ty))
         gen = any(isinstance(n, ast.Yield) for n in ast.walk(node))
         fx = Fn(node.name, gen=gen)
@@ -1446,7 +1477,8 @@ class ClassUnit:
         fx.params = names[1:]
         fx.locals = set(assigned_names(node.body))
         env = Env()
-        env.ty["self"] = REC
+        if not static:
+            env.ty["self"] = REC
         for p, ty in zip(names[1:], sig):
             self.storable(p, env, fx)
             env.ty[p] = ty
@@ -1465,13 +1497,15 @@ class ClassUnit:
         cx.mty = MTy()
         body = self.two_pass(fx, node, env, cx, off_end)
         coq = "py_" + node.name
-        binders = ["{P D PK DK : Type}", "(ops : rec_ops P D PK DK)", "(v_self : pyRec P D)"] + \
-                  ["(v_%s : %s)" % (p, coq_type(ty)) for p, ty in zip(names[1:], sig)] + \
+        binders = ["{P D PK DK : Type}", "(ops : rec_ops P D PK DK)"] + \
+                  ([] if static else ["(v_self : pyRec P D)"]) + \
+                  ["(v_%s : %s)" % (p, coq_type(ty)) for p, ty in zip(names[1:], sig) if ty != OPAQUE] + \
                   (["(fuel : nat)"] if fx.fuel else [])
         text = "Definition %s %s : %s :=\n%s." % (coq, " ".join(binders), cx.mty, body)
         return {"coq": coq, "params": sig, "ret": fx.ret_expect, "gen": gen, "yld": fx.yld_expect,
-                "fuel": fx.fuel, "text": text, "src": "%s.%s" % (CLS, node.name),
-                "sig": ", ".join("%s : %s" % (p, coq_type(ty)) for p, ty in zip(names[1:], sig))}
+                "fuel": fx.fuel, "text": text, "src": "%s.%s" % (CLS, node.name), "static": static,
+                "sig": ", ".join("%s : %s" % (p, "(not passed)" if ty == OPAQUE else coq_type(ty))
+                                 for p, ty in zip(names[1:], sig))}
 
     def ctor_body(self, node):
         a = node.args
@@ -1507,7 +1541,7 @@ class ClassUnit:
         text = "Definition %s %s : exc (pyRec P D) :=\n  let v_self := py_empty_instance P D in\n%s." % (
             coq, " ".join(binders), body)
         return {"coq": coq, "params": [t for _, t in INIT_PARAMS], "ret": REC, "gen": False, "yld": None,
-                "fuel": False, "text": text, "src": "%s.__init__" % CLS,
+                "fuel": False, "text": text, "src": "%s.__init__" % CLS, "static": False,
                 "sig": ", ".join("%s : %s" % (p, coq_type(t)) for p, t in INIT_PARAMS)}
 
 
